@@ -95,6 +95,19 @@ def oracle(r):
                     if not fin or fin[0] > pos[("TdBegin", c)][0]:
                         bad.append(("C08:teardown-did-not-wait", f"callback {c} (registered before service task {sid}) ran "
                                     f"before the task and its context had finished"))
+    # (1b) the finalizer of an EARLIER service task is such a callback too: an earlier task is told to stop (cancelled,
+    # its callable invoked) only after every task started after it, and that task's context, has finished
+    for x, early in enumerate(started):
+        told = [pos[k][0] for k in (("CancelSeen", early), ("ActionInvoked", early)) if k in pos]
+        if not told or ("Started", early) not in pos:
+            continue
+        for later in started[x + 1:]:
+            if ("Started", later) not in pos:
+                continue
+            fin = pos.get(("Finished", later))
+            if not fin or fin[0] > min(told):
+                bad.append(("C08:stopped-early", f"service task {early} was told to stop before service task {later} "
+                            f"(started after it) and its context had finished"))
     # (2) the teardown action
     for sid in started:
         sv = svcs[sid]
